@@ -103,6 +103,10 @@ def cases(draw: Any, tier: str) -> dict:
             else:
                 crashed = True
         regs.append(r)
+    tds = [r for r in regs if r["k"] == "td"]
+    if tds and not crashed and d.pct(15):
+        # a teardown callback that starts a service task of its own while the context is already being torn down
+        d.pick(tds)["late"] = d.pick([1, 2, 3])
     regs2: list[dict] = []
     if d.pct(35):
         # a concurrent registrar (think: sibling components starting at the same time)
@@ -230,7 +234,24 @@ class Interp:
                 reg = all_regs[i]
                 for _ in range(reg.get("pre", 0)):
                     await anyio.lowlevel.checkpoint()
-                if reg["k"] == "td":
+                if reg["k"] == "td" and reg.get("late"):
+                    async def late_cb(i: int = i, c: int = reg["late"]) -> None:
+                        interp.ev("cb-begin", i)
+
+                        async def late_task() -> None:
+                            interp.ev("late-start", i)
+                            try:
+                                await anyio.sleep_forever()
+                            except cancelled_cls:
+                                with anyio.CancelScope(shield=True):
+                                    await anyio.sleep(c)
+                                interp.ev("late-end", i)
+                                raise
+
+                        await ctx.start_service_task(late_task, f"late{i}")
+                        interp.ev("cb-end", i)
+                    add_teardown_callback(late_cb)
+                elif reg["k"] == "td":
                     def cb(i: int = i) -> None:
                         interp.ev("cb-begin", i)
                         interp.ev("cb-end", i)
@@ -437,13 +458,13 @@ class Interp:
                         continue
                     # after everything registered later has completed
                     for j in (later(i) if i in place else []):
-                        ends = pos("cb-end", j) if regs[j]["k"] != "svc" else pos("task-end", j) + pos("inner-td", j)
+                        ends = pos("cb-end", j) + pos("late-end", j) if regs[j]["k"] != "svc" else pos("task-end", j) + pos("inner-td", j)
                         if any(e > acts[0] for e in ends):
                             self.disc("finalized-too-early", f"task {i} was told to stop before registration {j} (registered later) had finished")
                 cancelled = bool(pos("task-cancelled", i))
                 # when does this task's finalizer run? when everything registered later has finished
                 later_done = [t[3] for t in tr for j in (later(i) if i in place else [])
-                              if t[2] == j and t[1] in ("cb-end", "task-end", "inner-td", "action-end")]
+                              if t[2] == j and t[1] in ("cb-end", "task-end", "inner-td", "action-end", "late-end")]
                 fin_time = max(later_done + [t[3] for t in tr if t[1] == "body-end"])
                 if r["beh"] == "self_end":
                     natural_end = [t[3] for t in tr if t[1] == "task-start" and t[2] == i][0] + r["d"]
@@ -460,7 +481,7 @@ class Interp:
                     # the cancellation comes after everything registered later has completed
                     tc = pos("task-cancelled", i)[0]
                     for j in (later(i) if i in place else []):
-                        ends = pos("cb-end", j) if regs[j]["k"] != "svc" else pos("task-end", j) + pos("inner-td", j)
+                        ends = pos("cb-end", j) + pos("late-end", j) if regs[j]["k"] != "svc" else pos("task-end", j) + pos("inner-td", j)
                         if any(e > tc for e in ends):
                             self.disc("finalized-too-early", f"task {i} was cancelled before registration {j} (registered later) had finished")
                 # nothing registered earlier starts its teardown before this task is completely finished
@@ -482,6 +503,24 @@ class Interp:
                                   f"({r['action']}/{r['beh']}, cleanup {r['c']}) and its context had finished")
                 if r["inner_td"] and pos("task-start", i) and len(pos("inner-td", i)) != 1:
                     self.disc("task-context-teardown", f"teardown callback registered inside task {i}'s own context ran {len(pos('inner-td', i))} times")
+            for p_, r in enumerate(regs):
+                if r.get("late") and p_ in place and pos("cb-end", p_):
+                    out.labels.append("service-task-started-during-teardown")
+                    le = pos("late-end", p_)
+                    if not le or le[0] > left_s:
+                        self.disc("task-outlives-block", f"the service task started by teardown callback {p_} during the teardown had not finished "
+                                  f"when the `async with` block was left")
+                        continue
+                    for j in earlier(p_):
+                        if regs[j]["k"] != "svc":
+                            starts = pos("cb-begin", j)
+                        else:
+                            starts = [s_ for s_ in pos("action", j) + (pos("task-cancelled", j) if regs[j]["action"] in ("cancel", "raise_exc", "raise_base") else [])
+                                      if s_ > be]
+                        if any(s_ < le[0] for s_ in starts):
+                            self.disc("teardown-did-not-wait", f"teardown of registration {j} (registered before callback {p_}, which started a service "
+                                      f"task during the teardown) began before that task had finished")
+                            break
             for j, r in enumerate(regs):
                 if r["k"] != "svc" and (len(pos("cb-begin", j)) != 1 or len(pos("cb-end", j)) != 1):
                     self.disc("callback-count", f"teardown callback {j} ran {len(pos('cb-begin', j))} times")
